@@ -3,8 +3,10 @@ package props
 import (
 	"fmt"
 	"math/rand"
+	"strings"
 
 	"verif/harness/ast"
+	"verif/harness/core"
 	"verif/harness/gen"
 	"verif/harness/ref"
 )
@@ -162,4 +164,12 @@ func insertBlock(blocks []ast.Block, b ast.Block, p int) []ast.Block {
 	out := append([]ast.Block{}, blocks[:p]...)
 	out = append(out, b)
 	return append(out, blocks[p:]...)
+}
+
+// countBig records which big shape (gen/big.go) a scenario carries, by family.
+func countBig(c *core.C, s *gen.Scenario) {
+	if s.Big != "" {
+		c.Count("big_shape/"+strings.SplitN(s.Big, "-", 2)[0], 1)
+		c.NT("big/" + s.Big)
+	}
 }
